@@ -26,6 +26,7 @@ use std::path::{Path, PathBuf};
 use std::sync::{Arc, Mutex};
 
 pub mod gen;
+pub mod tamper;
 
 pub const KC_SEED: &[u8] = b"grin-verif fixed keychain seed 0001";
 
@@ -76,6 +77,9 @@ pub struct Lib {
 	/// if its commitment equals the one the current code derives.
 	disk: Mutex<HashMap<OutRef, Vec<u8>>>,
 	disk_file: Mutex<Option<std::fs::File>>,
+	/// in-memory memo of key derivations (BIP32 + switch commitment ≈ 3 ms each)
+	commits: Mutex<HashMap<OutRef, Commitment>>,
+	blinds: Mutex<HashMap<OutRef, SecretKey>>,
 }
 
 fn cache_paths() -> Vec<PathBuf> {
@@ -120,20 +124,34 @@ lazy_static! {
 		proofs_from_cache: std::sync::atomic::AtomicU64::new(0),
 		disk: Mutex::new(load_disk_cache()),
 		disk_file: Mutex::new(None),
+		commits: Mutex::new(HashMap::new()),
+		blinds: Mutex::new(HashMap::new()),
 	};
 }
 
 impl Lib {
 	pub fn commit(&self, o: &OutRef) -> Commitment {
-		self.kc
+		if let Some(c) = self.commits.lock().unwrap().get(o) {
+			return *c;
+		}
+		let c = self
+			.kc
 			.commit(o.amount, &o.key_id(), SwitchCommitmentType::Regular)
-			.expect("commit")
+			.expect("commit");
+		self.commits.lock().unwrap().insert(*o, c);
+		c
 	}
 
 	pub fn blind(&self, o: &OutRef) -> SecretKey {
-		self.kc
+		if let Some(c) = self.blinds.lock().unwrap().get(o) {
+			return c.clone();
+		}
+		let k = self
+			.kc
 			.derive_key(o.amount, &o.key_id(), SwitchCommitmentType::Regular)
-			.expect("derive")
+			.expect("derive");
+		self.blinds.lock().unwrap().insert(*o, k.clone());
+		k
 	}
 
 	fn from_disk(&self, o: &OutRef, commit: &Commitment) -> Option<Output> {
@@ -434,6 +452,10 @@ pub struct Model {
 	pub total_difficulty: u64,
 	pub n_outputs_ever: u64,
 	pub n_kernels_ever: u64,
+	/// every kernel excess on this branch (for the recomputed kernel sum)
+	pub kernel_excesses: Vec<Commitment>,
+	/// total kernel offset claimed by the branch tip header
+	pub total_offset: Option<BlindingFactor>,
 }
 
 #[derive(Clone, Debug, PartialEq, Eq)]
@@ -531,6 +553,8 @@ impl Model {
 		m.total_difficulty = b.header.total_difficulty().to_num();
 		m.n_outputs_ever += b.outputs().len() as u64;
 		m.n_kernels_ever += b.kernels().len() as u64;
+		m.kernel_excesses.extend(b.kernels().iter().map(|k| k.excess));
+		m.total_offset = Some(b.header.total_kernel_offset.clone());
 		Ok(m)
 	}
 }
